@@ -159,6 +159,21 @@ def check_array(out, facts):
             if d == 'true':
                 bulk = x
         bseq = [e for e in events(bulk) if e[0] in ('OWN', 'read', '?', 'RET')] if bulk else []
+        # zero-fill through a `[MaybeUninit<u8>]` view of the same bytes (`view.fill(MaybeUninit::new(0))`) is the zero-fill
+        # `ptr.write_bytes(0, n)` performs
+        mseq = [e for e in events(bulk) if e[0] in ('OWN', 'MUTCALL', 'read', '?', 'RET')] if bulk else []
+        for i in range(len(mseq) - 1):
+            a_, b_ = mseq[i], mseq[i + 1]
+            if a_[0] == 'OWN' and a_[1] == 'from_raw_parts_mut' and b_[0] == 'MUTCALL' and b_[1] == 'fill' and len(b_[3]) == 2 and \
+                    sym.vstr(b_[3][1]) in ('new(0:u8)', 'MaybeUninit::new(0:u8)') and a_[5] and any('MaybeUninit<u8>' in str(x_) for x_ in a_[5]) and \
+                    _is_view_of(b_[3][0], a_):
+                ptr_ = strip(a_[3][0])
+                if isinstance(ptr_, tuple) and ptr_ and ptr_[0] == 'call' and ptr_[1] == 'cast' and isinstance(strip(ptr_[3][0]), tuple) and strip(ptr_[3][0])[:2] == ('call', 'cast'):
+                    ptr_ = strip(ptr_[3][0])        # cast of a cast
+                wb_ = ['OWN', 'write_bytes', a_[2], [ptr_, ('lit', 0, 'u8', ()), a_[3][1]], a_[4], a_[5], True]
+                bseq = [wb_] + [e for e in mseq[i + 2:] if e[0] in ('OWN', 'read', '?', 'RET')]
+                bseq = [e for e in mseq[:i] if e[0] in ('OWN', 'read', '?', 'RET')] + bseq
+                break
         names = [(e[0], e[1] if e[0] == 'OWN' else None) for e in bseq]
         if names != [('OWN', 'write_bytes'), ('OWN', 'from_raw_parts_mut'), ('read', None), ('?', None), ('OWN', 'assert_decoding_finished'), ('RET', None)]:
             why.append('bulk path is not zero-fill, view as bytes, read?, DecodeFinished: %s' % names)
@@ -250,6 +265,19 @@ def check_array(out, facts):
                 and seq[0][3] == 'decode_into' and seq[0][1] == '[T; N]'
         ok = ok and n_success >= 1
         out.ob('R10.4', '[T; N]::decode assume_init [%s]' % cfg, ok, 'assume_init is not dominated by a successful decode_into of the whole array: ' + sym.tstr(t3), f2['loc'])
+
+
+def _is_view_of(v, own_ev):
+    """is the value (possibly through a local binding) the slice the from_raw_parts_mut event built?"""
+    x = strip(v)
+    for _ in range(4):
+        if isinstance(x, tuple) and x and x[0] == 'mutvar' and len(x) > 3:
+            x = strip(x[3])
+        else:
+            break
+    x = sym.deinit(x) if isinstance(x, tuple) else x
+    return isinstance(x, tuple) and len(x) > 3 and x[0] == 'call' and x[1] == 'from_raw_parts_mut' and \
+        [sym.vstr(a) for a in x[3]] == [sym.vstr(a) for a in own_ev[3]]
 
 
 def check_box(out, facts):
